@@ -20,8 +20,11 @@ import (
 
 type schemeInfo struct {
 	s kem.Scheme
-	// raw X25519/X448 share inside the ciphertext: [xoff, xoff+xlen), xlen in {0,32,56}
+	// X25519/X448 share inside the ciphertext: [xoff, xoff+xlen), xlen in {0,32,56}; xbound: the share
+	// bytes themselves are bound into the secret (kem_context / combiner), so even the masked or
+	// non-canonical bits must change the secret
 	xoff, xlen int
+	xbound     bool
 	implicit   string // "", "mlkem", "kyber", "frodo"
 	// offset/len of the implicit-rejection component ciphertext and of z inside sk, for the (R) check
 	pure bool
@@ -42,6 +45,12 @@ func allSchemes() []schemeInfo {
 			si.xoff, si.xlen = 0, 56
 		case n == "X25519MLKEM768":
 			si.xoff, si.xlen = 1088, 32
+		case n == "HPKE_KEM_X25519_HKDF_SHA256" || n == "HPKE_KEM_X25519_KYBER768_HKDF_SHA256":
+			si.xoff, si.xlen, si.xbound = 0, 32, true
+		case n == "HPKE_KEM_X448_HKDF_SHA512":
+			si.xoff, si.xlen, si.xbound = 0, 56, true
+		case n == "X-Wing" || n == "HPKE_KEM_XWING":
+			si.xoff, si.xlen, si.xbound = 1088, 32, true
 		case strings.HasPrefix(n, "ML-KEM"):
 			si.implicit, si.pure = "mlkem", true
 		case strings.HasPrefix(n, "Kyber"):
@@ -145,10 +154,38 @@ func honest(t vlib.TB, si schemeInfo, kseed, eseed []byte) (*caseCtx, bool) {
 func marshalRoundTrip(t vlib.TB, c *caseCtx) {
 	s := c.si.s
 	name := c.name
-	pk2, err := s.UnmarshalBinaryPublicKey(c.pkb)
+	// the keys are decoded from scratch buffers which are overwritten afterwards: an unmarshalled key
+	// must not keep a reference to the caller's buffer
+	pkbuf, skbuf := append([]byte{}, c.pkb...), append([]byte{}, c.skb...)
+	pk2, err := s.UnmarshalBinaryPublicKey(pkbuf)
 	must(t, err, "UnmarshalBinaryPublicKey")
-	sk2, err := s.UnmarshalBinaryPrivateKey(c.skb)
+	sk2, err := s.UnmarshalBinaryPrivateKey(skbuf)
 	must(t, err, "UnmarshalBinaryPrivateKey")
+	for i := range pkbuf {
+		pkbuf[i] = 0xAA
+	}
+	for i := range skbuf {
+		skbuf[i] = 0x55
+	}
+	// likewise the bytes handed out by MarshalBinary belong to the caller
+	if mb, err := c.sk.MarshalBinary(); err == nil {
+		for i := range mb {
+			mb[i] ^= 0xff
+		}
+	}
+	if mb, err := c.pk.MarshalBinary(); err == nil {
+		for i := range mb {
+			mb[i] ^= 0xff
+		}
+	}
+	if b, _ := c.sk.MarshalBinary(); !bytes.Equal(b, c.skb) {
+		vlib.Report(t, "C01/marshal/"+name+"/marshalled-bytes-shared", "modifying the result of sk.MarshalBinary changed the key")
+		return
+	}
+	if b, _ := c.pk.MarshalBinary(); !bytes.Equal(b, c.pkb) {
+		vlib.Report(t, "C01/marshal/"+name+"/marshalled-bytes-shared", "modifying the result of pk.MarshalBinary changed the key")
+		return
+	}
 	if !pk2.Equal(c.pk) || !c.pk.Equal(pk2) || !sk2.Equal(c.sk) || !c.sk.Equal(sk2) {
 		vlib.Report(t, "C01/marshal/"+name+"/Equal", "unmarshalled key not Equal to original")
 		return
@@ -215,7 +252,7 @@ func tamper(t vlib.TB, c *caseCtx, ct2 []byte, alt string, otherSK kem.PrivateKe
 	}
 	// is the altered part bound?
 	bound := true
-	if c.si.xlen > 0 {
+	if c.si.xlen > 0 && !c.si.xbound {
 		a, b := c.ct[c.si.xoff:c.si.xoff+c.si.xlen], ct2[c.si.xoff:c.si.xoff+c.si.xlen]
 		rest := bytes.Equal(c.ct[:c.si.xoff], ct2[:c.si.xoff]) && bytes.Equal(c.ct[c.si.xoff+c.si.xlen:], ct2[c.si.xoff+c.si.xlen:])
 		if rest && canonU(a).Cmp(canonU(b)) == 0 {
@@ -248,6 +285,13 @@ func tamper(t vlib.TB, c *caseCtx, ct2 []byte, alt string, otherSK kem.PrivateKe
 			z := c.skb[len(c.skb)-32:]
 			hc := sha3.Sum256(ct2)
 			want = shake256(32, z, hc[:])
+		case "frodo":
+			// FrodoKEM: ss = SHAKE128(ct' || s), s = first 16 bytes of the private key
+			h := sha3.NewShake128()
+			h.Write(ct2)
+			h.Write(c.skb[:16])
+			want = make([]byte, 16)
+			h.Read(want)
 		}
 		if want != nil && !bytes.Equal(want, r1) {
 			vlib.Report(t, "C01/implicit-rejection/"+name+"/value", fmt.Sprintf("alt=%s: rejection secret %x, specification %x", alt, r1, want))
